@@ -12,6 +12,38 @@ package slog
 //   - contains a backslash only as its first byte (or as the second byte of the segment \\).
 // The quoted string is the opening quote, the concatenation of such segments, and the closing quote.
 
+// The exact segment per rune, i.e. what strconv.Unquote (and a JSON decoder, for the escapes the two share)
+// turns back into that rune: the C short escapes for 7..13, the rune itself for printable ASCII, \xHH for the
+// other ASCII controls, the UTF-8 encoding or \uXXXX / \UXXXXXXXX (lower-case hex of the code point) above.
+func specShortEscape(r rune) byte {
+	if r == 7 {
+		return 'a'
+	}
+	if r == 8 {
+		return 'b'
+	}
+	if r == 9 {
+		return 't'
+	}
+	if r == 10 {
+		return 'n'
+	}
+	if r == 11 {
+		return 'v'
+	}
+	if r == 12 {
+		return 'f'
+	}
+	return 'r'
+}
+
+func specHexDigit(n rune) byte {
+	if n < 10 {
+		return byte(48 + n)
+	}
+	return byte(87 + n)
+}
+
 //@ func appendEscapedRune
 //@   props C02 C04 C05 C06
 //@   auto
@@ -22,8 +54,42 @@ package slog
 //@   ensures [C05.seg-backslash] forall(k, len(buf), len(result), implies(result[k] == 92, k == len(buf) || (k == len(buf)+1 && result[len(buf)] == 92)))
 //@   ensures [C04.json-escape] implies(result[len(buf)] == 92, result[len(buf)+1] == 34 || result[len(buf)+1] == 92 || result[len(buf)+1] == 98 || result[len(buf)+1] == 102 || result[len(buf)+1] == 110 || result[len(buf)+1] == 114 || result[len(buf)+1] == 116 || result[len(buf)+1] == 117)
 //@   ensures [C05.seg-escaped] implies(r == 34 || r == 92, len(result) == len(buf) + 2 && result[len(buf)] == 92 && result[len(buf)+1] == r)
-//@   loop 1 invariant grown(buf, old(buf)) && len(buf) >= old(len(buf)) + 2 && forall(k, 0, old(len(buf)), buf[k] == old(buf[k])) && buf[old(len(buf))] == 92 && buf[old(len(buf))+1] == 117 && forall(k, old(len(buf))+2, len(buf), (buf[k] >= 48 && buf[k] <= 57) || (buf[k] >= 97 && buf[k] <= 102)) && s <= 12
-//@   loop 2 invariant grown(buf, old(buf)) && len(buf) >= old(len(buf)) + 2 && forall(k, 0, old(len(buf)), buf[k] == old(buf[k])) && buf[old(len(buf))] == 92 && buf[old(len(buf))+1] == 85 && forall(k, old(len(buf))+2, len(buf), (buf[k] >= 48 && buf[k] <= 57) || (buf[k] >= 97 && buf[k] <= 102)) && s <= 28
+//@   ensures [C05.seg-exact-short] implies(r >= 7 && r <= 13, len(result) == len(buf)+2 && result[len(buf)] == 92 && result[len(buf)+1] == specShortEscape(r))
+//@   ensures [C05.seg-exact-plain] implies(r >= 32 && r < 127 && r != 34 && r != 92, len(result) == len(buf)+1 && result[len(buf)] == r)
+//@   ensures [C05.seg-exact-hex] implies((r >= 0 && r < 7) || (r > 13 && r < 32) || r == 127, len(result) == len(buf)+4 && result[len(buf)] == 92 && result[len(buf)+1] == 120 && result[len(buf)+2] == specHexDigit(r/16) && result[len(buf)+3] == specHexDigit(r%16))
+//@   ensures [C05.seg-exact-utf8] implies(r >= 128 && result[len(buf)] != 92, len(result) == len(buf) + uf("utf8len", r) && forall(i, 0, uf("utf8len", r), result[len(buf)+i] == uf("utf8byte", r, i)))
+//@   ensures [C05.seg-exact-u4] implies(r >= 128 && r < 65536 && !(r >= 55296 && r <= 57343) && result[len(buf)] == 92, len(result) == len(buf)+6 && result[len(buf)+1] == 117)
+//@   ensures [C05.seg-exact-u4-d0] implies(r >= 128 && r < 65536 && !(r >= 55296 && r <= 57343) && result[len(buf)] == 92, result[len(buf)+2] == specHexDigit(r/4096%16))
+//@   ensures [C05.seg-exact-u4-d1] implies(r >= 128 && r < 65536 && !(r >= 55296 && r <= 57343) && result[len(buf)] == 92, result[len(buf)+3] == specHexDigit(r/256%16))
+//@   ensures [C05.seg-exact-u4-d2] implies(r >= 128 && r < 65536 && !(r >= 55296 && r <= 57343) && result[len(buf)] == 92, result[len(buf)+4] == specHexDigit(r/16%16))
+//@   ensures [C05.seg-exact-u4-d3] implies(r >= 128 && r < 65536 && !(r >= 55296 && r <= 57343) && result[len(buf)] == 92, result[len(buf)+5] == specHexDigit(r%16))
+//@   ensures [C05.seg-exact-u8] implies(r >= 65536 && r <= 1114111 && result[len(buf)] == 92, len(result) == len(buf)+10 && result[len(buf)+1] == 85)
+//@   ensures [C05.seg-exact-u8-d0] implies(r >= 65536 && r <= 1114111 && result[len(buf)] == 92, result[len(buf)+2] == specHexDigit(r/268435456%16))
+//@   ensures [C05.seg-exact-u8-d1] implies(r >= 65536 && r <= 1114111 && result[len(buf)] == 92, result[len(buf)+3] == specHexDigit(r/16777216%16))
+//@   ensures [C05.seg-exact-u8-d2] implies(r >= 65536 && r <= 1114111 && result[len(buf)] == 92, result[len(buf)+4] == specHexDigit(r/1048576%16))
+//@   ensures [C05.seg-exact-u8-d3] implies(r >= 65536 && r <= 1114111 && result[len(buf)] == 92, result[len(buf)+5] == specHexDigit(r/65536%16))
+//@   ensures [C05.seg-exact-u8-d4] implies(r >= 65536 && r <= 1114111 && result[len(buf)] == 92, result[len(buf)+6] == specHexDigit(r/4096%16))
+//@   ensures [C05.seg-exact-u8-d5] implies(r >= 65536 && r <= 1114111 && result[len(buf)] == 92, result[len(buf)+7] == specHexDigit(r/256%16))
+//@   ensures [C05.seg-exact-u8-d6] implies(r >= 65536 && r <= 1114111 && result[len(buf)] == 92, result[len(buf)+8] == specHexDigit(r/16%16))
+//@   ensures [C05.seg-exact-u8-d7] implies(r >= 65536 && r <= 1114111 && result[len(buf)] == 92, result[len(buf)+9] == specHexDigit(r%16))
+//@   loop 1 invariant [C05.u4-lex] grown(buf, old(buf)) && len(buf) >= old(len(buf)) + 2 && forall(k, 0, old(len(buf)), buf[k] == old(buf[k])) && buf[old(len(buf))] == 92 && buf[old(len(buf))+1] == 117 && forall(k, old(len(buf))+2, len(buf), (buf[k] >= 48 && buf[k] <= 57) || (buf[k] >= 97 && buf[k] <= 102)) && s <= 12
+//@   loop 1 invariant [C05.u4-shape] ((s == 12 && len(buf) == old(len(buf)) + 2) || (s == 8 && len(buf) == old(len(buf)) + 3) || (s == 4 && len(buf) == old(len(buf)) + 4) || (s == 0 && len(buf) == old(len(buf)) + 5) || (s == -4 && len(buf) == old(len(buf)) + 6))
+//@   loop 1 invariant [C05.u4-rune] 0 <= r && r < 65536 && implies(((0 <= old(r) && old(r) < 55296) || (57343 < old(r) && old(r) <= 1114111)), r == old(r))
+//@   loop 1 invariant [C05.u4-d0] implies(len(buf) >= old(len(buf))+3, buf[old(len(buf))+2] == hex[r>>12&15])
+//@   loop 1 invariant [C05.u4-d1] implies(len(buf) >= old(len(buf))+4, buf[old(len(buf))+3] == hex[r>>8&15])
+//@   loop 1 invariant [C05.u4-d2] implies(len(buf) >= old(len(buf))+5, buf[old(len(buf))+4] == hex[r>>4&15])
+//@   loop 1 invariant [C05.u4-d3] implies(len(buf) >= old(len(buf))+6, buf[old(len(buf))+5] == hex[r>>0&15])
+//@   loop 2 invariant [C05.u8-lex] grown(buf, old(buf)) && len(buf) >= old(len(buf)) + 2 && forall(k, 0, old(len(buf)), buf[k] == old(buf[k])) && buf[old(len(buf))] == 92 && buf[old(len(buf))+1] == 85 && forall(k, old(len(buf))+2, len(buf), (buf[k] >= 48 && buf[k] <= 57) || (buf[k] >= 97 && buf[k] <= 102)) && s <= 28
+//@   loop 2 invariant [C05.u8-shape] ((s == 28 && len(buf) == old(len(buf)) + 2) || (s == 24 && len(buf) == old(len(buf)) + 3) || (s == 20 && len(buf) == old(len(buf)) + 4) || (s == 16 && len(buf) == old(len(buf)) + 5) || (s == 12 && len(buf) == old(len(buf)) + 6) || (s == 8 && len(buf) == old(len(buf)) + 7) || (s == 4 && len(buf) == old(len(buf)) + 8) || (s == 0 && len(buf) == old(len(buf)) + 9) || (s == -4 && len(buf) == old(len(buf)) + 10))
+//@   loop 2 invariant [C05.u8-rune] r == old(r) && r >= 65536 && r <= 1114111
+//@   loop 2 invariant [C05.u8-d0] implies(len(buf) >= old(len(buf))+3, buf[old(len(buf))+2] == hex[r>>28&15])
+//@   loop 2 invariant [C05.u8-d1] implies(len(buf) >= old(len(buf))+4, buf[old(len(buf))+3] == hex[r>>24&15])
+//@   loop 2 invariant [C05.u8-d2] implies(len(buf) >= old(len(buf))+5, buf[old(len(buf))+4] == hex[r>>20&15])
+//@   loop 2 invariant [C05.u8-d3] implies(len(buf) >= old(len(buf))+6, buf[old(len(buf))+5] == hex[r>>16&15])
+//@   loop 2 invariant [C05.u8-d4] implies(len(buf) >= old(len(buf))+7, buf[old(len(buf))+6] == hex[r>>12&15])
+//@   loop 2 invariant [C05.u8-d5] implies(len(buf) >= old(len(buf))+8, buf[old(len(buf))+7] == hex[r>>8&15])
+//@   loop 2 invariant [C05.u8-d6] implies(len(buf) >= old(len(buf))+9, buf[old(len(buf))+8] == hex[r>>4&15])
+//@   loop 2 invariant [C05.u8-d7] implies(len(buf) >= old(len(buf))+10, buf[old(len(buf))+9] == hex[r>>0&15])
 
 // the quoted string: opening quote, one segment per rune (or \xHH for a byte that is not valid UTF-8), closing quote
 //@ func appendQuotedWith
@@ -34,6 +100,8 @@ package slog
 //@   ensures [C05.q-delims] result[len(buf)] == 34 && result[len(result)-1] == 34
 //@   ensures [C05.q-nocontrol] forall(k, len(buf), len(result), result[k] >= 32 && result[k] != 127)
 //@   ensures [C05.q-quote] forall(k, len(buf)+1, len(result)-1, implies(result[k] == 34, result[k-1] == 92))
+//@   loop 1 invariant [C05.q-suffix] len(s) <= old(len(s)) && same(s, old(s)[old(len(s))-len(s):])
+//@   at call appendEscapedRune assert [C05.q-feed] callee.quote == quote && implies(s[0] < 128, callee.r == s[0] && width == 1)
 //@   loop 1 invariant [C05.q-loop] grown(buf, old(buf)) && len(buf) >= old(len(buf)) + 1 && forall(k, 0, old(len(buf)), buf[k] == old(buf[k])) && buf[old(len(buf))] == 34 && forall(k, old(len(buf)), len(buf), buf[k] >= 32 && buf[k] != 127) && forall(k, old(len(buf))+1, len(buf), implies(buf[k] == 34, buf[k-1] == 92)) && 0 <= width
 
 // ---- where the escaper is applied: string values in the two machine-readable formats, and the message
